@@ -267,7 +267,11 @@ def f_r4_order(schema: Schema, rep: Report):
         stars = [a for a in v.args if isinstance(a, ast.Starred)]
         dstars = [k for k in v.keywords if k.arg is None]
         ok = len(stars) == 1 and len(dstars) == 1 and len(v.args) == 1 and len(v.keywords) == 1
-        if ok:
+        syn_ = getattr(call, "_synthetic", None)
+        if ok and syn_ is not None:
+            # loop form: the two collections the loop fills are the ones handed to the constructor
+            ok = text(stars[0].value) == syn_["args"] and text(dstars[0].value) == syn_["kwargs"]
+        elif ok:
             # both come from the reduce result [:2]
             odefs = local_defs(outer)
             a, k = text(stars[0].value), text(dstars[0].value)
